@@ -8,11 +8,13 @@ import (
 	"sort"
 	"strings"
 	"testing"
+	"time"
 
 	sdkmath "cosmossdk.io/math"
 	"github.com/google/uuid"
 
 	sdk "github.com/cosmos/cosmos-sdk/types"
+	"github.com/cosmos/cosmos-sdk/types/query"
 	authtypes "github.com/cosmos/cosmos-sdk/x/auth/types"
 	"github.com/cosmos/cosmos-sdk/x/authz"
 	banktypes "github.com/cosmos/cosmos-sdk/x/bank/types"
@@ -21,22 +23,27 @@ import (
 	markertypes "github.com/provenance-io/provenance/x/marker/types"
 	mdkeeper "github.com/provenance-io/provenance/x/metadata/keeper"
 	mdtypes "github.com/provenance-io/provenance/x/metadata/types"
+	"github.com/provenance-io/provenance/x/quarantine"
 )
 
 // ---------------------------------------------------------------------------------------------
 // C09: a scope has one value owner, changed only with the current owner's consent.
 //
-// Histories over 2-4 scopes and a fixed cast of accounts, every step through the REAL message
-// handlers (MsgWriteScopeRequest, MsgUpdateValueOwnersRequest, MsgMigrateValueOwnerRequest,
-// MsgDeleteScopeRequest, bank MsgSend of the scope token) with the Signers field drawn from the
-// cast; authz grants through the real authz keeper; marker access lists through the real marker
-// keeper.  After every step: every bank balance and the supply of every scope denom, keeper
-// GetScopeValueOwner, gRPC Scope and ValueOwnership queries, accept/reject.
+// Histories over 2-4 scopes (bulk histories: 20 and 105 scopes) and a fixed cast of accounts, every
+// step through the REAL message handlers (MsgWriteScopeRequest, MsgUpdateValueOwnersRequest,
+// MsgMigrateValueOwnerRequest, MsgDeleteScopeRequest, MsgAddScopeDataAccessRequest, bank MsgSend and
+// MsgMultiSend of scope tokens, quarantine MsgOptIn / MsgOptOut / MsgUpdateAutoResponses / MsgAccept /
+// MsgDecline) with the Signers field drawn from the cast; authz grants (generic and count-limited,
+// with and without expiration) through the real authz keeper; marker access lists and marker STATUS
+// through the real marker keeper; sanctions through the real sanction keeper; block time advanced on
+// the context.  After every step: every bank balance and the supply of every scope denom, keeper
+// GetScopeValueOwner, gRPC Scope and ValueOwnership queries, every authz grant, every quarantine
+// record, accept/reject.
 //
 // Cast (model index): 0 metadata module account, 1-3 users (scope owners), 4 authz grantee,
 // 5 stranger, 6 marker administrator, 7 unrestricted marker, 8 restricted marker, 9 smart contract
-// (base account, sequence 0, no public key), 10 another module account (blocked), 99 anybody else.
-// Quarantine of scope tokens (receiver opted in) is NOT generated here.
+// (base account, sequence 0, no public key), 10 another module account (blocked), 11 the quarantine
+// funds holder, 12 restricted marker with forced transfer, 99 anybody else.
 // ---------------------------------------------------------------------------------------------
 
 const (
@@ -48,8 +55,12 @@ const (
 	c09Mk2      = 8
 	c09Wasm     = 9
 	c09Blocked  = 10
+	c09QHold    = 11
+	c09Mk3      = 12
 	c09Other    = 99
 )
+
+var c09Markers = []int{c09Mk1, c09Mk2, c09Mk3}
 
 var c09Kinds = []string{"KWrite", "KUpdate", "KMigrate", "KDelete", "KAddData"}
 var c09KindURL = []string{
@@ -58,19 +69,29 @@ var c09KindURL = []string{
 	mdtypes.TypeURLMsgAddScopeDataAccessRequest,
 }
 
-// party roles (PartyType enum values) and the required roles of the two existing scope specifications
+// party roles (PartyType enum values) and the required roles of the existing scope specifications
 const (
-	c09Owner    = int(mdtypes.PartyType_PARTY_TYPE_OWNER)
-	c09Investor = int(mdtypes.PartyType_PARTY_TYPE_INVESTOR)
-	c09Servicer = int(mdtypes.PartyType_PARTY_TYPE_SERVICER)
+	c09Owner      = int(mdtypes.PartyType_PARTY_TYPE_OWNER)
+	c09Investor   = int(mdtypes.PartyType_PARTY_TYPE_INVESTOR)
+	c09Servicer   = int(mdtypes.PartyType_PARTY_TYPE_SERVICER)
+	c09Custodian  = int(mdtypes.PartyType_PARTY_TYPE_CUSTODIAN)
+	c09Provenance = int(mdtypes.PartyType_PARTY_TYPE_PROVENANCE)
+	c09Controller = int(mdtypes.PartyType_PARTY_TYPE_CONTROLLER)
 )
 
-var c09SpecRoles = map[int][]int{1: {c09Owner}, 2: {c09Owner, c09Investor}}
+// specifications 1-4 exist, 5 does not
+var c09SpecRoles = map[int][]int{1: {c09Owner}, 2: {c09Owner, c09Investor},
+	3: {c09Owner, c09Servicer, c09Provenance}, 4: {c09Owner, c09Owner, c09Custodian}}
+
+const c09NoSpec = 5
+
+var c09MarkerStatus = []string{"", "proposed", "finalized", "active", "cancelled", "destroyed"}
 
 type c09Env struct {
 	t     *testing.T
 	app   *simapp.App
 	base  sdk.Context
+	t0    time.Time
 	addrs map[int]sdk.AccAddress
 	order []int // model indexes in a fixed order
 	specs []mdtypes.MetadataAddress
@@ -100,28 +121,41 @@ func c09OptN(i int) string {
 	}
 	return "(Some " + c09N(i) + ")"
 }
+func c09OptZ(ok bool, v int64) string {
+	if !ok {
+		return "None"
+	}
+	return "(Some " + zI64(v) + ")"
+}
 
 type c09Marker struct {
-	restricted        bool
-	withdraw, deposit []int
+	restricted, forced bool
+	status             int
+	withdraw, deposit  []int
 }
 
 func (m c09Marker) term() string {
-	return fmt.Sprintf("{| mk_restricted := %s; mk_withdraw := %s; mk_deposit := %s |}", coqBool(m.restricted), c09Ns(m.withdraw), c09Ns(m.deposit))
+	return fmt.Sprintf("{| mk_restricted := %s; mk_status := %s; mk_forced := %s; mk_withdraw := %s; mk_deposit := %s |}",
+		coqBool(m.restricted), c09N(m.status), coqBool(m.forced), c09Ns(m.withdraw), c09Ns(m.deposit))
 }
 
 func c09Setup(t *testing.T) *c09Env {
 	app, ctx := newApp(t)
-	e := &c09Env{t: t, app: app, base: ctx, addrs: map[int]sdk.AccAddress{}, mkDen: map[int]string{c09Mk1: "cninecoin", c09Mk2: "cninerest"}}
+	t0 := time.Unix(1_700_000_000, 0).UTC()
+	ctx = ctx.WithBlockTime(t0)
+	e := &c09Env{t: t, app: app, base: ctx, t0: t0, addrs: map[int]sdk.AccAddress{},
+		mkDen: map[int]string{c09Mk1: "cninecoin", c09Mk2: "cninerest", c09Mk3: "cnineforced"}}
 	e.addrs[c09Module] = authtypes.NewModuleAddress(mdtypes.ModuleName)
 	e.addrs[c09Blocked] = authtypes.NewModuleAddress("mint")
+	e.addrs[c09QHold] = app.QuarantineKeeper.GetFundsHolder()
 	for i := 1; i <= 6; i++ {
 		e.addrs[i] = addrN(9000 + i)
 	}
 	e.addrs[c09Wasm] = addrN(9009)
-	e.addrs[c09Mk1] = markertypes.MustGetMarkerAddress(e.mkDen[c09Mk1])
-	e.addrs[c09Mk2] = markertypes.MustGetMarkerAddress(e.mkDen[c09Mk2])
-	e.order = []int{0, 1, 2, 3, 4, 5, 6, 7, 8, 9, 10}
+	for _, mi := range c09Markers {
+		e.addrs[mi] = markertypes.MustGetMarkerAddress(e.mkDen[mi])
+	}
+	e.order = []int{0, 1, 2, 3, 4, 5, 6, 7, 8, 9, 10, 11, 12}
 	// ordinary accounts have signed before (sequence 1): the metadata module treats an existing base
 	// account with sequence 0 and no public key as a smart contract
 	for i := 1; i <= 6; i++ {
@@ -133,23 +167,23 @@ func c09Setup(t *testing.T) *c09Env {
 	}
 	ensureAccount(app, ctx, e.addrs[c09Wasm])
 	// markers
-	for _, mi := range []int{c09Mk1, c09Mk2} {
+	for _, mi := range c09Markers {
 		mt := markertypes.MarkerType_Coin
-		if mi == c09Mk2 {
+		if mi != c09Mk1 {
 			mt = markertypes.MarkerType_RestrictedCoin
 		}
 		ma := markertypes.NewMarkerAccount(authtypes.NewBaseAccountWithAddress(e.addrs[mi]), sdk.NewInt64Coin(e.mkDen[mi], 1000), e.addrs[c09Admin],
 			[]markertypes.AccessGrant{{Address: e.addrs[c09Admin].String(), Permissions: []markertypes.Access{markertypes.Access_Mint, markertypes.Access_Admin}}},
-			markertypes.StatusProposed, mt, true, false, false, nil)
+			markertypes.StatusProposed, mt, true, false, mi == c09Mk3, nil)
 		if err := app.MarkerKeeper.AddFinalizeAndActivateMarker(ctx, ma); err != nil {
 			t.Fatalf("marker %s: %v", e.mkDen[mi], err)
 		}
 	}
-	// two scope specifications exist, a third id does not
-	for i := 1; i <= 3; i++ {
+	// four scope specifications exist, a fifth id does not
+	for i := 1; i <= c09NoSpec; i++ {
 		id := mdtypes.ScopeSpecMetadataAddress(uuid.MustParse(fmt.Sprintf("00000000-0000-4000-9000-0000000000%02d", i)))
 		e.specs = append(e.specs, id)
-		if i <= 2 {
+		if i < c09NoSpec {
 			var roles []mdtypes.PartyType
 			for _, r := range c09SpecRoles[i] {
 				roles = append(roles, mdtypes.PartyType(r))
@@ -163,10 +197,13 @@ func c09Setup(t *testing.T) *c09Env {
 			t.Fatalf("account %d expected to be blocked", i)
 		}
 	}
+	if app.BankKeeper.BlockedAddr(e.addrs[c09QHold]) {
+		t.Fatalf("the quarantine funds holder is expected NOT to be a blocked address")
+	}
 	return e
 }
 
-// setMarker writes withdraw/deposit access lists of a marker through the marker keeper.
+// setMarker writes withdraw/deposit access lists and the status of a marker through the marker keeper.
 func (e *c09Env) setMarker(ctx sdk.Context, mi int, m c09Marker) {
 	mk, err := e.app.MarkerKeeper.GetMarkerByDenom(ctx, e.mkDen[mi])
 	if err != nil {
@@ -191,11 +228,15 @@ func (e *c09Env) setMarker(ctx sdk.Context, mi int, m c09Marker) {
 		list = append(list, markertypes.AccessGrant{Address: e.addrs[a].String(), Permissions: perms[a]})
 	}
 	ma.AccessControl = list
+	ma.Status = markertypes.MarkerStatus(m.status)
 	e.app.MarkerKeeper.SetMarker(ctx, ma)
 }
 
-func (e *c09Env) randMarker(r *rand.Rand, restricted bool) c09Marker {
-	m := c09Marker{restricted: restricted}
+func (e *c09Env) randMarker(r *rand.Rand, mi int) c09Marker {
+	m := c09Marker{restricted: mi != c09Mk1, forced: mi == c09Mk3, status: int(markertypes.StatusActive)}
+	if r.Intn(5) < 3 {
+		m.status = []int{1, 2, 4, 5}[r.Intn(4)]
+	}
 	cands := []int{c09Admin, 1, c09Grantee, c09Wasm}
 	for _, a := range cands {
 		p := 4
@@ -240,7 +281,7 @@ type c09Party struct {
 
 type c09Scope struct {
 	parties []c09Party
-	spec    int // 1..3
+	spec    int // 1..5
 	data    []int
 	rollup  bool
 }
@@ -322,10 +363,14 @@ type c09Op struct {
 	run            func(sdk.Context) error
 }
 
+func c09WriteTerm(sg []int, d int, sc c09Scope, vo int) string {
+	return fmt.Sprintf("OWrite %s %s %s %s %s %s %s", c09Ns(sg), c09N(d+1), c09PartiesTerm(sc.parties), c09N(sc.spec), c09Ns(sc.data), coqBool(sc.rollup), c09OptN(vo))
+}
+
 func (h *c09Hist) opWrite(cls string, sg []int, d int, sc c09Scope, vo int) c09Op {
 	msg := &mdtypes.MsgWriteScopeRequest{Scope: h.mkScope(d, sc, vo), Signers: h.strs(sg)}
 	return c09Op{cls: cls,
-		term: fmt.Sprintf("OWrite %s %s %s %s %s %s %s", c09Ns(sg), c09N(d+1), c09PartiesTerm(sc.parties), c09N(sc.spec), c09Ns(sc.data), coqBool(sc.rollup), c09OptN(vo)),
+		term: c09WriteTerm(sg, d, sc, vo),
 		dsc:  fmt.Sprintf("%s scope %d parties %v spec %d data %v rollup %v vo %d signers %v", cls, d+1, sc.parties, sc.spec, sc.data, sc.rollup, vo, sg),
 		run: func(c sdk.Context) error {
 			err := h.e.runMsg(c, msg)
@@ -350,6 +395,14 @@ func (h *c09Hist) opUpdate(sg []int, ds []int, to int) c09Op {
 		run: func(c sdk.Context) error { return h.e.runMsg(c, msg) }}
 }
 
+func (h *c09Hist) opMigrate(sg []int, from, to int) c09Op {
+	e := h.e
+	msg := &mdtypes.MsgMigrateValueOwnerRequest{Existing: e.addrs[from].String(), Proposed: e.addrs[to].String(), Signers: h.strs(sg)}
+	return c09Op{cls: "migrate", term: fmt.Sprintf("OMigrate %s %s %s", c09Ns(sg), c09N(from), c09N(to)),
+		dsc: fmt.Sprintf("migrate %d to %d signers %v", from, to, sg),
+		run: func(c sdk.Context) error { return e.runMsg(c, msg) }}
+}
+
 func (h *c09Hist) opAddData(sg []int, d int, da []int) c09Op {
 	var strs []string
 	for _, x := range da {
@@ -367,14 +420,137 @@ func (h *c09Hist) opAddData(sg []int, d int, da []int) c09Op {
 		}}
 }
 
+func (h *c09Hist) opGrant(granter, grantee, k int, hasExp bool, exp int64, hasLeft bool, left int64) c09Op {
+	e := h.e
+	var a authz.Authorization = authz.NewGenericAuthorization(c09KindURL[k])
+	if hasLeft {
+		a = authz.NewCountAuthorization(c09KindURL[k], int32(left))
+	}
+	var expT *time.Time
+	if hasExp {
+		t := e.t0.Add(time.Duration(exp) * time.Second)
+		expT = &t
+	}
+	return c09Op{cls: "grant", term: fmt.Sprintf("OGrant %s %s %s %s %s", c09N(granter), c09N(grantee), c09Kinds[k], c09OptZ(hasExp, exp), c09OptZ(hasLeft, left)),
+		dsc: fmt.Sprintf("grant %d/%d/%d exp %v %d uses %v %d", granter, grantee, k, hasExp, exp, hasLeft, left),
+		run: func(c sdk.Context) error {
+			return try(func() error { return e.app.AuthzKeeper.SaveGrant(c, e.addrs[grantee], e.addrs[granter], a, expT) })
+		}}
+}
+
+// expiryScript: a value owner lets the grantee update its scopes until a deadline; the grantee uses
+// the grant exactly at the deadline (still valid; a count authorization with more than one use left
+// cannot be saved back then: the message fails) or one second after it (expired), twice.
+func (h *c09Hist) expiryScript(nIds int) []func() c09Op {
+	r := h.r
+	for _, d := range r.Perm(nIds) {
+		a := h.holder(d)
+		if a < 1 || a > c09Admin || a == c09Grantee {
+			continue
+		}
+		exp := h.now + 1 + int64(r.Intn(5))
+		hasLeft, left := r.Intn(2) == 0, int64(1+r.Intn(3))
+		at := exp + int64(r.Intn(2))
+		to := []int{c09Stranger, 1, 2, 3}[r.Intn(4)]
+		upd := func() c09Op {
+			var ds []int
+			for _, x := range h.heldBy(a) {
+				if len(ds) == 0 || r.Intn(2) == 0 {
+					ds = append(ds, x)
+				}
+			}
+			if len(ds) == 0 {
+				ds = []int{d}
+			}
+			return h.opUpdate([]int{c09Grantee}, ds, to)
+		}
+		return []func() c09Op{
+			func() c09Op { return h.opGrant(a, c09Grantee, 1, true, exp, hasLeft, left) },
+			func() c09Op { return h.opSetTime(at) },
+			upd, upd,
+		}
+	}
+	return nil
+}
+
+func (h *c09Hist) opDelete(sg []int, d int) c09Op {
+	msg := &mdtypes.MsgDeleteScopeRequest{ScopeId: h.ids[d], Signers: h.strs(sg)}
+	return c09Op{cls: "delete", term: fmt.Sprintf("ODelete %s %s", c09Ns(sg), c09N(d+1)),
+		dsc: fmt.Sprintf("delete scope %d signers %v", d+1, sg),
+		run: func(c sdk.Context) error {
+			err := h.e.runMsg(c, msg)
+			if err == nil {
+				delete(h.scopes, d)
+			}
+			return err
+		}}
+}
+
+func (h *c09Hist) opSend(from, to, d int, amt int64) c09Op {
+	e := h.e
+	msg := &banktypes.MsgSend{FromAddress: e.addrs[from].String(), ToAddress: e.addrs[to].String(),
+		Amount: sdk.Coins{sdk.Coin{Denom: h.ids[d].Denom(), Amount: sdkmath.NewInt(amt)}}}
+	return c09Op{cls: "send", term: fmt.Sprintf("OSend %s %s %s %s", c09N(from), c09N(to), c09N(d+1), zI64(amt)),
+		dsc: fmt.Sprintf("bank send scope %d token from %d to %d amount %d", d+1, from, to, amt),
+		run: func(c sdk.Context) error { return e.runMsg(c, msg) }}
+}
+
+func (h *c09Hist) opOptIn(a int) c09Op {
+	msg := &quarantine.MsgOptIn{ToAddress: h.e.addrs[a].String()}
+	return c09Op{cls: "opt-in", term: fmt.Sprintf("OOptIn %s", c09N(a)), dsc: fmt.Sprintf("quarantine opt-in %d", a),
+		run: func(c sdk.Context) error { return h.e.runMsg(c, msg) }}
+}
+
+func (h *c09Hist) opAccept(to int, froms []int, perm bool) c09Op {
+	msg := &quarantine.MsgAccept{ToAddress: h.e.addrs[to].String(), FromAddresses: h.strs(froms), Permanent: perm}
+	return c09Op{cls: "accept", term: fmt.Sprintf("OAccept %s %s %s", c09N(to), c09Ns(froms), coqBool(perm)),
+		dsc: fmt.Sprintf("quarantine accept by %d from %v permanent %v", to, froms, perm),
+		run: func(c sdk.Context) error { return h.e.runMsg(c, msg) }}
+}
+
+// c09Script: the histories of the observation Examples of coq/Properties/C09.v, run on the real
+// handlers on every run.
+func (h *c09Hist) c09Script(k int) []func() c09Op {
+	sc := c09Scope{parties: []c09Party{{1, c09Owner, false}}, spec: 1}
+	wr := func(sg []int, vo int) func() c09Op {
+		return func() c09Op { return h.opWrite("script-write", sg, 0, sc, vo) }
+	}
+	op := func(o c09Op) func() c09Op { return func() c09Op { return o } }
+	switch k {
+	case 1: // a quarantined transfer: the funds holder is reported as value owner; nobody can move or delete
+		return []func() c09Op{op(h.opOptIn(2)), wr([]int{1}, 1), op(h.opUpdate([]int{1}, []int{0}, 2)),
+			op(h.opDelete([]int{1}, 0)), op(h.opDelete([]int{1, 2}, 0)), op(h.opUpdate([]int{1, 2}, []int{0}, 1)),
+			wr([]int{1, 2}, 1), op(h.opSend(2, 1, 0, 1)), op(h.opAccept(2, []int{1}, false))}
+	case 2: // a token sent to the funds holder directly has no record and stays
+		return []func() c09Op{wr([]int{1}, 1), op(h.opSend(1, c09QHold, 0, 1)), op(h.opOptIn(1)),
+			op(h.opAccept(1, []int{1, c09QHold}, false)), op(h.opUpdate([]int{1}, []int{0}, 1)), op(h.opDelete([]int{1}, 0))}
+	default: // count authorizations in the second of their expiration (k-3 = uses: 0 unlimited, 1, 2)
+		uses := int64(k - 3)
+		return []func() c09Op{wr([]int{1}, 1),
+			op(h.opGrant(1, c09Grantee, 1, true, 10, uses > 0, uses)), func() c09Op { return h.opSetTime(10) },
+			op(h.opUpdate([]int{c09Grantee}, []int{0}, c09Stranger))}
+	}
+}
+
+func (h *c09Hist) opSetTime(t int64) c09Op {
+	return c09Op{cls: "set-time", term: fmt.Sprintf("OSetTime %s", zI64(t)), dsc: fmt.Sprintf("block time %d", t),
+		run: func(sdk.Context) error {
+			h.now = t
+			h.ctx = h.ctx.WithBlockTime(h.e.t0.Add(time.Duration(t) * time.Second))
+			return nil
+		}}
+}
+
 type c09Hist struct {
-	e      *c09Env
-	r      *rand.Rand
-	ctx    sdk.Context
-	ids    []mdtypes.MetadataAddress
-	scopes map[int]*c09Scope // accepted writes, by scope index
-	grants map[string]bool
-	mks    map[int]c09Marker
+	e       *c09Env
+	r       *rand.Rand
+	ctx     sdk.Context
+	ids     []mdtypes.MetadataAddress
+	scopes  map[int]*c09Scope // accepted writes, by scope index
+	mks     map[int]c09Marker
+	now     int64
+	profile string
+	paged   bool
 }
 
 func (h *c09Hist) strs(l []int) []string {
@@ -391,6 +567,91 @@ func (h *c09Hist) holder(d int) int {
 		return -1
 	}
 	return h.e.idx(vo)
+}
+
+// hasGrant: the real authz keeper has an unexpired authorization from granter to grantee for the kind.
+func (h *c09Hist) hasGrant(granter, grantee, kind int) bool {
+	a, _ := h.e.app.AuthzKeeper.GetAuthorization(h.ctx, h.e.addrs[grantee], h.e.addrs[granter], c09KindURL[kind])
+	return a != nil
+}
+
+// storedGrant: the authz store has a grant under the key, expired or not.
+func (h *c09Hist) storedGrant(granter, grantee, kind int) bool {
+	for _, g := range h.allGrants() {
+		if g.granter == granter && g.grantee == grantee && g.kind == kind {
+			return true
+		}
+	}
+	return false
+}
+
+type c09Grant struct {
+	granter, grantee, kind int
+	exp, left              int64
+	hasExp, hasLeft        bool
+}
+
+func c09KindOfURL(u string) int {
+	for i, x := range c09KindURL {
+		if x == u {
+			return i
+		}
+	}
+	return -1
+}
+
+func (h *c09Hist) allGrants() []c09Grant {
+	var out []c09Grant
+	e := h.e
+	e.app.AuthzKeeper.IterateGrants(h.ctx, func(granter, grantee sdk.AccAddress, g authz.Grant) bool {
+		a, err := g.GetAuthorization()
+		if err != nil {
+			e.t.Fatalf("grant: %v", err)
+		}
+		k := c09KindOfURL(a.MsgTypeURL())
+		if k < 0 {
+			return false
+		}
+		gr := c09Grant{granter: e.idx(granter), grantee: e.idx(grantee), kind: k}
+		if g.Expiration != nil {
+			gr.hasExp, gr.exp = true, g.Expiration.Unix()-e.t0.Unix()
+		}
+		if ca, ok := a.(*authz.CountAuthorization); ok {
+			gr.hasLeft, gr.left = true, int64(ca.AllowedAuthorizations)
+		}
+		out = append(out, gr)
+		return false
+	})
+	return out
+}
+
+type c09QRec struct {
+	to, from int
+	coins    map[int]int64 // scope index -> amount
+}
+
+func (h *c09Hist) allQRecs() []c09QRec {
+	e := h.e
+	denIdx := map[string]int{}
+	for i, id := range h.ids {
+		denIdx[id.Denom()] = i
+	}
+	var out []c09QRec
+	e.app.QuarantineKeeper.IterateQuarantineRecords(h.ctx, nil, func(to, _ sdk.AccAddress, rec *quarantine.QuarantineRecord) bool {
+		if len(rec.UnacceptedFromAddresses)+len(rec.AcceptedFromAddresses) != 1 {
+			e.t.Fatalf("quarantine record with several senders: %v", rec)
+		}
+		from := append(append([]sdk.AccAddress{}, rec.UnacceptedFromAddresses...), rec.AcceptedFromAddresses...)[0]
+		q := c09QRec{to: e.idx(to), from: e.idx(from), coins: map[int]int64{}}
+		for _, c := range rec.Coins {
+			if i, ok := denIdx[c.Denom]; ok {
+				q.coins[i] += c.Amount.Int64()
+			}
+		}
+		out = append(out, q)
+		return false
+	})
+	return out
 }
 
 // observe projects the real state.
@@ -448,17 +709,31 @@ func (h *c09Hist) observe(ok bool) string {
 		uu[u.String()] = i + 1
 	}
 	for _, a := range e.order {
-		var resp *mdtypes.ValueOwnershipResponse
-		err := try(func() error {
-			var err error
-			resp, err = app.MetadataKeeper.ValueOwnership(h.ctx, &mdtypes.ValueOwnershipRequest{Address: e.addrs[a].String()})
-			return err
-		})
-		if err != nil {
-			e.t.Fatalf("value ownership query: %v", err)
+		var uuids []string
+		var next []byte
+		for page := 0; ; page++ {
+			req := &mdtypes.ValueOwnershipRequest{Address: e.addrs[a].String()}
+			if h.paged {
+				// the default page size (100) and the next keys the query hands back
+				req.Pagination = &query.PageRequest{Key: next}
+			}
+			var resp *mdtypes.ValueOwnershipResponse
+			err := try(func() error {
+				var err error
+				resp, err = app.MetadataKeeper.ValueOwnership(h.ctx, req)
+				return err
+			})
+			if err != nil {
+				e.t.Fatalf("value ownership query: %v", err)
+			}
+			uuids = append(uuids, resp.ScopeUuids...)
+			if !h.paged || resp.Pagination == nil || len(resp.Pagination.NextKey) == 0 || page > 50 {
+				break
+			}
+			next = resp.Pagination.NextKey
 		}
 		var l []int
-		for _, u := range resp.ScopeUuids {
+		for _, u := range uuids {
 			if i, ok := uu[u]; ok {
 				l = append(l, i)
 			} else {
@@ -469,14 +744,31 @@ func (h *c09Hist) observe(ok bool) string {
 			oown = append(oown, fmt.Sprintf("(%s, %s)", c09N(a), c09Ns(l)))
 		}
 	}
-	return fmt.Sprintf("{| o_ok := %s; o_bal := %s; o_sup := %s; o_vo := %s; o_q := %s; o_own := %s |}",
-		coqBool(ok), coqList(obal), coqList(osup), coqList(ovo), coqList(oq), coqList(oown))
+	var ogr, oqr []string
+	for _, g := range h.allGrants() {
+		ogr = append(ogr, fmt.Sprintf("{| g_granter := %s; g_grantee := %s; g_kind := %s; g_exp := %s; g_left := %s |}",
+			c09N(g.granter), c09N(g.grantee), c09Kinds[g.kind], c09OptZ(g.hasExp, g.exp), c09OptZ(g.hasLeft, g.left)))
+	}
+	for _, q := range h.allQRecs() {
+		var ks []int
+		for d := range q.coins {
+			ks = append(ks, d)
+		}
+		sort.Ints(ks)
+		var cs []string
+		for _, d := range ks {
+			cs = append(cs, fmt.Sprintf("(%s, %s)", c09N(d+1), zI64(q.coins[d])))
+		}
+		oqr = append(oqr, fmt.Sprintf("{| q_to := %s; q_from := %s; q_coins := %s |}", c09N(q.to), c09N(q.from), coqList(cs)))
+	}
+	return fmt.Sprintf("{| o_ok := %s; o_bal := %s; o_sup := %s; o_vo := %s; o_q := %s; o_own := %s; o_gr := %s; o_qr := %s |}",
+		coqBool(ok), coqList(obal), coqList(osup), coqList(ovo), coqList(oq), coqList(oown), coqList(ogr), coqList(oqr))
 }
 
 // pick helpers
 func (h *c09Hist) anyAcct() int {
-	// weights: users and markers common, contract/blocked/module rare
-	switch x := h.r.Intn(20); {
+	// weights: users and markers common, contract/blocked/module/quarantine holder rare
+	switch x := h.r.Intn(22); {
 	case x < 9:
 		return 1 + h.r.Intn(3)
 	case x < 11:
@@ -493,16 +785,21 @@ func (h *c09Hist) anyAcct() int {
 		return c09Wasm
 	case x < 19:
 		return c09Stranger
+	case x < 21:
+		return c09Mk3
 	default:
-		if h.r.Intn(2) == 0 {
+		switch h.r.Intn(3) {
+		case 0:
 			return c09Blocked
+		case 1:
+			return c09QHold
 		}
 		return c09Module
 	}
 }
 
 // goodSigners: the signers that should make a value owner change from [holders] to [to] pass
-// (plus the owners of [owners] when owner signatures are needed).
+// (plus the owners of [owners] when owner signatures are needed).  A smart contract goes first.
 func (h *c09Hist) goodSigners(kind int, holders []int, to int, owners []int) []int {
 	var sg []int
 	add := func(a int) {
@@ -511,16 +808,25 @@ func (h *c09Hist) goodSigners(kind int, holders []int, to int, owners []int) []i
 				return
 			}
 		}
+		if a == c09Wasm {
+			sg = append([]int{a}, sg...)
+			return
+		}
 		sg = append(sg, a)
 	}
 	viaGrant := func(a int) bool {
-		if (h.grants[fmt.Sprintf("%d/%d/%d", a, c09Grantee, kind)] || (kind == 4 && h.grants[fmt.Sprintf("%d/%d/0", a, c09Grantee)])) && h.r.Intn(3) > 0 {
+		if (h.hasGrant(a, c09Grantee, kind) || (kind == 4 && h.hasGrant(a, c09Grantee, 0))) && h.r.Intn(3) > 0 {
+			add(c09Grantee)
+			return true
+		}
+		// an EXPIRED grant for this message type must not help: try it every other time
+		if h.r.Intn(2) == 0 && h.storedGrant(a, c09Grantee, kind) {
 			add(c09Grantee)
 			return true
 		}
 		// a grant for ANOTHER message type must not help: try it now and then
 		for k := 0; k < 5; k++ {
-			if k != kind && h.grants[fmt.Sprintf("%d/%d/%d", a, c09Grantee, k)] && h.r.Intn(3) == 0 {
+			if k != kind && h.r.Intn(3) == 0 && h.hasGrant(a, c09Grantee, k) {
 				add(c09Grantee)
 				return true
 			}
@@ -533,8 +839,8 @@ func (h *c09Hist) goodSigners(kind int, holders []int, to int, owners []int) []i
 		}
 	}
 	for _, a := range holders {
-		if a < 0 {
-			continue
+		if a < 0 || a == c09QHold {
+			continue // the quarantine funds holder has no key: nobody can sign for it
 		}
 		if m, ok := h.mks[a]; ok {
 			if len(m.withdraw) > 0 {
@@ -569,6 +875,15 @@ func (h *c09Hist) randSigners() []int {
 	return sg
 }
 
+func (h *c09Hist) grantedSomething(a int) bool {
+	for k := 0; k < 5; k++ {
+		if h.hasGrant(a, c09Grantee, k) {
+			return true
+		}
+	}
+	return false
+}
+
 // signers: mostly the right ones, sometimes with one dropped or a stranger instead, sometimes random.
 func (h *c09Hist) signers(kind int, holders []int, to int, owners []int) []int {
 	standIn := func() []int {
@@ -581,11 +896,9 @@ func (h *c09Hist) signers(kind int, holders []int, to int, owners []int) []int {
 		return append(sg, c09Grantee)
 	}
 	for _, a := range holders {
-		for k := 0; k < 5; k++ {
-			// a value owner that granted the grantee SOMETHING: the grantee tries to act for it
-			if h.grants[fmt.Sprintf("%d/%d/%d", a, c09Grantee, k)] && h.r.Intn(8) == 0 {
-				return standIn()
-			}
+		// a value owner that granted the grantee SOMETHING: the grantee tries to act for it
+		if a >= 0 && h.r.Intn(8) == 0 && h.grantedSomething(a) {
+			return standIn()
 		}
 	}
 	switch x := h.r.Intn(13); {
@@ -594,7 +907,7 @@ func (h *c09Hist) signers(kind int, holders []int, to int, owners []int) []int {
 		if h.r.Intn(6) == 0 {
 			sg = append(sg, c09Stranger)
 		}
-		if h.r.Intn(12) == 0 {
+		if h.r.Intn(12) == 0 && (len(sg) == 0 || sg[0] != c09Wasm) {
 			sg = append([]int{c09Wasm}, sg...)
 		}
 		return sg
@@ -635,8 +948,13 @@ var c09PartyPool = []int{1, 2, 3, 1, 2, 3, c09Grantee, c09Admin}
 func (h *c09Hist) newScope() c09Scope {
 	r := h.r
 	sc := c09Scope{rollup: r.Intn(2) == 0, spec: 1 + r.Intn(2)}
-	if r.Intn(15) == 0 {
+	switch r.Intn(15) {
+	case 0:
+		sc.spec = c09NoSpec
+	case 1, 2:
 		sc.spec = 3
+	case 3, 4:
+		sc.spec = 4
 	}
 	has := func(a, role int) bool {
 		for _, p := range sc.parties {
@@ -652,14 +970,26 @@ func (h *c09Hist) newScope() c09Scope {
 		}
 	}
 	add(1+r.Intn(3), c09Owner, r.Intn(6) == 0)
-	if r.Intn(4) == 0 {
+	if r.Intn(4) == 0 || sc.spec == 4 {
 		add(1+r.Intn(3), c09Owner, r.Intn(2) == 0)
+		if sc.spec == 4 && len(sc.parties) < 2 && r.Intn(4) > 0 {
+			add(1+(sc.parties[0].a%3), c09Owner, r.Intn(2) == 0)
+		}
 	}
 	if sc.spec == 2 || r.Intn(2) == 0 {
 		add(c09PartyPool[r.Intn(len(c09PartyPool))], c09Investor, r.Intn(3) > 0)
 	}
-	if r.Intn(3) == 0 {
+	if sc.spec == 3 || r.Intn(3) == 0 {
 		add(c09PartyPool[r.Intn(len(c09PartyPool))], c09Servicer, r.Intn(2) == 0)
+	}
+	if sc.spec == 4 && r.Intn(5) > 0 {
+		add(c09PartyPool[r.Intn(len(c09PartyPool))], c09Custodian, r.Intn(2) == 0)
+	}
+	if r.Intn(8) == 0 {
+		add(c09PartyPool[r.Intn(len(c09PartyPool))], c09Controller, r.Intn(2) == 0)
+	}
+	if (sc.spec == 3 && r.Intn(5) > 0) || r.Intn(12) == 0 { // a contract with the PROVENANCE role
+		add(c09Wasm, c09Provenance, r.Intn(2) == 0)
 	}
 	if r.Intn(5) == 0 { // one account in two roles
 		add(sc.parties[0].a, c09Servicer, r.Intn(2) == 0)
@@ -669,7 +999,7 @@ func (h *c09Hist) newScope() c09Scope {
 			sc.data = append(sc.data, x)
 		}
 	}
-	switch r.Intn(30) {
+	switch r.Intn(32) {
 	case 0:
 		sc.parties = nil
 	case 1: // an optional party without rollup
@@ -683,6 +1013,10 @@ func (h *c09Hist) newScope() c09Scope {
 		}
 	case 3: // a contract as owner
 		sc.parties = append(sc.parties, c09Party{c09Wasm, c09Owner, false})
+	case 4: // the PROVENANCE role for an account that is not a contract
+		if !has(1+r.Intn(3), c09Provenance) {
+			sc.parties = append(sc.parties, c09Party{1 + r.Intn(3), c09Provenance, sc.rollup && r.Intn(2) == 0})
+		}
 	}
 	return sc
 }
@@ -745,7 +1079,7 @@ func (h *c09Hist) changeOther(cur *c09Scope) c09Scope {
 		}
 		sc.data = kept
 	case 2: // add or drop a party
-		a, role := c09PartyPool[r.Intn(len(c09PartyPool))], []int{c09Owner, c09Investor, c09Servicer}[r.Intn(3)]
+		a, role := c09PartyPool[r.Intn(len(c09PartyPool))], []int{c09Owner, c09Investor, c09Servicer, c09Custodian}[r.Intn(4)]
 		idx := -1
 		for i, p := range sc.parties {
 			if p.a == a && p.role == role {
@@ -766,10 +1100,10 @@ func (h *c09Hist) changeOther(cur *c09Scope) c09Scope {
 		} else {
 			sc.data = append(sc.data, 1+r.Intn(3))
 		}
-	case 4: // the other specification
-		sc.spec = 3 - cur.spec
+	case 4: // another specification
+		sc.spec = 1 + (cur.spec+r.Intn(3))%4
 		if r.Intn(6) == 0 {
-			sc.spec = 3
+			sc.spec = c09NoSpec
 		}
 	default: // switch party rollup
 		sc.rollup = !sc.rollup
@@ -782,12 +1116,62 @@ func (h *c09Hist) changeOther(cur *c09Scope) c09Scope {
 	return sc
 }
 
+// weights of the operation kinds per history profile:
+// write, update, migrate, delete, add-data, send, multisend, authz, marker, time, sanction, quarantine-admin, accept
+var c09Profiles = map[string][]int{
+	"plain":      {30, 18, 9, 10, 7, 10, 3, 8, 5, 0, 0, 0, 0},
+	"authz":      {22, 16, 9, 9, 8, 4, 1, 18, 3, 10, 0, 0, 0},
+	"quarantine": {20, 13, 7, 6, 2, 12, 7, 3, 3, 1, 0, 13, 13},
+	"sanction":   {24, 15, 8, 9, 3, 12, 4, 4, 4, 0, 13, 2, 2},
+	"marker":     {20, 20, 9, 10, 2, 14, 4, 3, 16, 0, 1, 1, 0},
+	"mixed":      {20, 13, 7, 7, 4, 9, 4, 9, 6, 5, 5, 6, 5},
+}
+var c09ProfileOrder = []string{"plain", "plain", "authz", "quarantine", "sanction", "marker", "mixed", "quarantine", "authz", "marker"}
+
+// depositMarkerOf: a restricted marker on which account a has deposit access.
+func (h *c09Hist) depositMarkerOf(a int) (int, bool) {
+	for _, mi := range []int{c09Mk2, c09Mk3} {
+		for _, x := range h.mks[mi].deposit {
+			if x == a {
+				return mi, true
+			}
+		}
+	}
+	return 0, false
+}
+
+func (h *c09Hist) heldBy(a int) []int {
+	var out []int
+	for d := range h.ids {
+		if h.holder(d) == a {
+			out = append(out, d)
+		}
+	}
+	return out
+}
+
 func (h *c09Hist) genOp(nIds int) c09Op {
 	e, r := h.e, h.r
-	x := r.Intn(100)
+	w := c09Profiles[h.profile]
+	total := 0
+	for _, x := range w {
+		total += x
+	}
+	x := r.Intn(total)
+	kind := 0
+	for i, wi := range w {
+		if x < wi {
+			kind = i
+			break
+		}
+		x -= wi
+	}
 	existing := h.existingIdx()
-	switch {
-	case x < 30 || len(existing) == 0: // write scope
+	if len(existing) == 0 && kind != 7 && kind != 8 && kind != 9 && kind != 10 && kind != 11 {
+		kind = 0
+	}
+	switch kind {
+	case 0: // write scope
 		d := r.Intn(nIds)
 		if len(existing) > 0 && len(existing) < nIds && r.Intn(3) == 0 {
 			for _, c := range r.Perm(nIds) {
@@ -855,7 +1239,7 @@ func (h *c09Hist) genOp(nIds int) c09Op {
 			sg = h.goodSigners(0, nil, vo, need)
 		}
 		return h.opWrite(cls, sg, d, sc, vo)
-	case x < 48: // update value owners
+	case 1: // update value owners
 		var ds []int
 		for _, d := range r.Perm(nIds) {
 			if h.holder(d) >= 0 && (len(ds) == 0 || r.Intn(2) == 0) {
@@ -887,13 +1271,21 @@ func (h *c09Hist) genOp(nIds int) c09Op {
 				to = h.anyAcct()
 			}
 		}
+		if len(holders) == 1 && r.Intn(3) == 0 {
+			if mi, ok := h.depositMarkerOf(holders[0]); ok {
+				to = mi
+			}
+		}
 		sg := h.signers(1, holders, to, nil)
+		if len(holders) == 1 && holders[0] >= 0 && h.hasGrant(holders[0], c09Grantee, 1) && r.Intn(3) == 0 {
+			sg = []int{c09Grantee}
+		}
 		if len(ds) > 0 && h.scopes[ds[0]] != nil && r.Intn(6) == 0 {
 			// the scope's parties try to move the token without its holder
 			sg = h.goodSigners(1, nil, to, h.scopes[ds[0]].need(h.scopes[ds[0]].spec))
 		}
 		return h.opUpdate(sg, ds, to)
-	case x < 57: // migrate
+	case 2: // migrate
 		from := h.anyAcct()
 		if r.Intn(4) > 0 {
 			for _, d := range r.Perm(nIds) {
@@ -904,12 +1296,15 @@ func (h *c09Hist) genOp(nIds int) c09Op {
 			}
 		}
 		to := h.anyAcct()
+		if mi, ok := h.depositMarkerOf(from); ok && r.Intn(3) == 0 {
+			to = mi // a restricted marker on which the current owner itself (not a signer) may deposit
+		}
 		sg := h.signers(2, []int{from}, to, nil)
-		msg := &mdtypes.MsgMigrateValueOwnerRequest{Existing: e.addrs[from].String(), Proposed: e.addrs[to].String(), Signers: h.strs(sg)}
-		return c09Op{cls: "migrate", term: fmt.Sprintf("OMigrate %s %s %s", c09Ns(sg), c09N(from), c09N(to)),
-			dsc: fmt.Sprintf("migrate %d to %d signers %v", from, to, sg),
-			run: func(c sdk.Context) error { return e.runMsg(c, msg) }}
-	case x < 67: // delete
+		if h.hasGrant(from, c09Grantee, 2) && r.Intn(2) == 0 {
+			sg = []int{c09Grantee}
+		}
+		return h.opMigrate(sg, from, to)
+	case 3: // delete
 		d := r.Intn(nIds)
 		if len(existing) > 0 && r.Intn(8) > 0 {
 			d = existing[r.Intn(len(existing))]
@@ -946,7 +1341,7 @@ func (h *c09Hist) genOp(nIds int) c09Op {
 				}
 				return err
 			}}
-	case x < 74: // add data access (rewrites the stored scope through SetScope)
+	case 4: // add data access (rewrites the stored scope through SetScope)
 		d := existing[r.Intn(len(existing))]
 		if r.Intn(10) == 0 {
 			d = r.Intn(nIds)
@@ -969,13 +1364,19 @@ func (h *c09Hist) genOp(nIds int) c09Op {
 			need = sc.need(sc.spec)
 		}
 		return h.opAddData(h.signers(4, nil, -1, need), d, da)
-	case x < 86: // plain bank send of the token
+	case 5: // plain bank send of the token
 		d := r.Intn(nIds)
 		from := h.holder(d)
 		if from < 0 || r.Intn(5) == 0 {
 			from = h.anyAcct()
 		}
+		for from == c09QHold {
+			from = h.anyAcct() // no key: cannot send
+		}
 		to := h.anyAcct()
+		if h.profile == "quarantine" && r.Intn(2) == 0 {
+			to = 1 + r.Intn(3)
+		}
 		amt := int64(1)
 		if v := r.Intn(20); v == 0 {
 			amt = 2
@@ -987,13 +1388,76 @@ func (h *c09Hist) genOp(nIds int) c09Op {
 		return c09Op{cls: "send", term: fmt.Sprintf("OSend %s %s %s %s", c09N(from), c09N(to), c09N(d+1), zI64(amt)),
 			dsc: fmt.Sprintf("bank send scope %d token from %d to %d amount %d", d+1, from, to, amt),
 			run: func(c sdk.Context) error { return e.runMsg(c, msg) }}
-	case x < 95: // authz grant / revoke
+	case 6: // bank multi-send of the tokens an account holds
+		from := h.anyAcct()
+		for _, d := range r.Perm(nIds) {
+			if a := h.holder(d); a >= 0 && r.Intn(4) > 0 {
+				from = a
+				break
+			}
+		}
+		for from == c09QHold {
+			from = h.anyAcct() // no key: cannot send
+		}
+		held := h.heldBy(from)
+		nOut := 1 + r.Intn(3)
+		outs := make([][]int, nOut)
+		tos := make([]int, nOut)
+		for i := range tos {
+			tos[i] = h.anyAcct()
+			if h.profile == "quarantine" && r.Intn(2) == 0 {
+				tos[i] = 1 + r.Intn(3)
+			}
+		}
+		for _, d := range held {
+			if r.Intn(4) > 0 {
+				i := r.Intn(nOut)
+				outs[i] = append(outs[i], d)
+			}
+		}
+		switch r.Intn(12) {
+		case 0: // a token the sender does not hold
+			outs[0] = append(outs[0], r.Intn(nIds))
+		case 1: // the same token to two receivers
+			if len(held) > 0 && nOut > 1 {
+				outs[0] = append(outs[0], held[0])
+				outs[1] = append(outs[1], held[0])
+			}
+		}
+		var terms, dscs []string
+		var outputs []banktypes.Output
+		total := sdk.Coins{}
+		for i := range outs {
+			seen := map[int]bool{}
+			var ds []int
+			for _, d := range outs[i] {
+				if !seen[d] {
+					seen[d] = true
+					ds = append(ds, d)
+				}
+			}
+			coins := sdk.Coins{}
+			dn := make([]int, len(ds))
+			for j, d := range ds {
+				coins = coins.Add(sdk.NewInt64Coin(h.ids[d].Denom(), 1))
+				dn[j] = d + 1
+			}
+			total = total.Add(coins...)
+			outputs = append(outputs, banktypes.Output{Address: e.addrs[tos[i]].String(), Coins: coins})
+			terms = append(terms, fmt.Sprintf("(%s, %s)", c09N(tos[i]), c09Ns(dn)))
+			dscs = append(dscs, fmt.Sprintf("%d:%v", tos[i], dn))
+		}
+		msg := &banktypes.MsgMultiSend{Inputs: []banktypes.Input{{Address: e.addrs[from].String(), Coins: total}}, Outputs: outputs}
+		return c09Op{cls: "multisend", term: fmt.Sprintf("OMultiSend %s %s", c09N(from), coqList(terms)),
+			dsc: fmt.Sprintf("bank multi-send from %d: %s", from, strings.Join(dscs, " ")),
+			run: func(c sdk.Context) error { return e.runMsg(c, msg) }}
+	case 7: // authz grant / revoke
 		granter := 1 + r.Intn(3)
 		if r.Intn(4) == 0 {
 			// any account that can sign a MsgGrant (markers and module accounts have no key)
 			granter = []int{1, 2, 3, c09Grantee, c09Stranger, c09Admin, c09Wasm}[r.Intn(7)]
 		} else if r.Intn(2) == 0 {
-			if a := h.holder(r.Intn(nIds)); a > 0 && a != c09Mk1 && a != c09Mk2 && a != c09Blocked && a != c09Other {
+			if a := h.holder(r.Intn(nIds)); a > 0 && a <= c09Admin || a == c09Wasm {
 				granter = a // a current value owner
 			}
 		}
@@ -1002,39 +1466,175 @@ func (h *c09Hist) genOp(nIds int) c09Op {
 			grantee = c09Wasm
 		}
 		k := []int{0, 0, 1, 1, 2, 3, 3, 4}[r.Intn(8)]
-		key := fmt.Sprintf("%d/%d/%d", granter, grantee, k)
-		if h.grants[key] && r.Intn(2) == 0 {
-			return c09Op{cls: "revoke", term: fmt.Sprintf("ORevoke %s %s %s", c09N(granter), c09N(grantee), c09Kinds[k]), dsc: "revoke " + key,
+		if r.Intn(4) == 0 {
+			// a current value owner that may deposit into a restricted marker lets the grantee move its scopes
+			for _, d := range r.Perm(nIds) {
+				a := h.holder(d)
+				if _, ok := h.depositMarkerOf(a); ok && (a > 0 && a <= c09Admin) {
+					granter, grantee, k = a, c09Grantee, 1+r.Intn(2)
+					break
+				}
+			}
+		}
+		if gs := h.allGrants(); len(gs) > 0 && r.Intn(4) == 0 || r.Intn(25) == 0 {
+			if len(gs) > 0 && r.Intn(8) > 0 {
+				g := gs[r.Intn(len(gs))]
+				granter, grantee, k = g.granter, g.grantee, g.kind
+			}
+			return c09Op{cls: "revoke", term: fmt.Sprintf("ORevoke %s %s %s", c09N(granter), c09N(grantee), c09Kinds[k]),
+				dsc: fmt.Sprintf("revoke %d/%d/%d", granter, grantee, k),
 				run: func(c sdk.Context) error {
-					err := e.app.AuthzKeeper.DeleteGrant(c, e.addrs[grantee], e.addrs[granter], c09KindURL[k])
-					if err == nil {
-						delete(h.grants, key)
-					}
-					return err
+					return e.app.AuthzKeeper.DeleteGrant(c, e.addrs[grantee], e.addrs[granter], c09KindURL[k])
 				}}
 		}
-		return c09Op{cls: "grant", term: fmt.Sprintf("OGrant %s %s %s", c09N(granter), c09N(grantee), c09Kinds[k]), dsc: "grant " + key,
-			run: func(c sdk.Context) error {
-				err := e.app.AuthzKeeper.SaveGrant(c, e.addrs[grantee], e.addrs[granter], authz.NewGenericAuthorization(c09KindURL[k]), nil)
-				if err == nil {
-					h.grants[key] = true
-				}
-				return err
-			}}
-	default: // marker access administration
-		mi := c09Mk1
-		if r.Intn(2) == 0 {
-			mi = c09Mk2
+		var hasExp, hasLeft bool
+		var exp, left int64
+		switch v := r.Intn(10); {
+		case v < 4:
+		case v < 6:
+			hasExp, exp = true, h.now+1+int64(r.Intn(40))
+		case v < 8:
+			hasLeft, left = true, 1+int64(r.Intn(3))
+		default:
+			hasExp, exp = true, h.now+1+int64(r.Intn(40))
+			hasLeft, left = true, 1+int64(r.Intn(3))
 		}
-		m := e.randMarker(r, mi == c09Mk2)
+		if hasExp && r.Intn(12) == 0 {
+			exp = h.now - int64(r.Intn(2)) // not after the block time: refused
+		}
+		return h.opGrant(granter, grantee, k, hasExp, exp, hasLeft, left)
+	case 8: // marker access and status administration
+		mi := c09Markers[r.Intn(len(c09Markers))]
+		if r.Intn(3) > 0 {
+			// prefer a marker that holds a scope
+			for _, d := range r.Perm(nIds) {
+				if _, ok := h.mks[h.holder(d)]; ok {
+					mi = h.holder(d)
+					break
+				}
+			}
+		}
+		m := e.randMarker(r, mi)
+		if r.Intn(2) == 0 { // only the status changes
+			old := h.mks[mi]
+			m.withdraw, m.deposit = old.withdraw, old.deposit
+		}
 		return c09Op{cls: "set-marker", term: fmt.Sprintf("OSetMarker %s %s", c09N(mi), m.term()),
-			dsc: fmt.Sprintf("marker %d access withdraw %v deposit %v", mi, m.withdraw, m.deposit),
+			dsc: fmt.Sprintf("marker %d status %s withdraw %v deposit %v", mi, c09MarkerStatus[m.status], m.withdraw, m.deposit),
 			run: func(c sdk.Context) error {
 				e.setMarker(c, mi, m)
 				h.mks[mi] = m
 				return nil
 			}}
+	case 9: // a later block
+		t := h.now + 1 + int64(r.Intn(15))
+		if gs := h.allGrants(); len(gs) > 0 && r.Intn(2) == 0 {
+			// exactly the expiration of a grant, or just past it
+			if g := gs[r.Intn(len(gs))]; g.hasExp && g.exp >= h.now {
+				t = g.exp + int64(r.Intn(2))
+			}
+		}
+		return h.opSetTime(t)
+	case 10: // sanction / unsanction
+		a := []int{1, 2, 3, c09Grantee, c09Stranger, c09Admin, c09Mk1, c09Mk2, c09Wasm}[r.Intn(9)]
+		if r.Intn(2) == 0 {
+			if hd := h.holder(r.Intn(nIds)); hd > 0 {
+				a = hd
+			}
+		}
+		if r.Intn(15) == 0 {
+			a = []int{c09Module, c09Blocked, c09QHold}[r.Intn(3)]
+		}
+		if e.app.SanctionKeeper.IsSanctionedAddr(h.ctx, e.addrs[a]) && r.Intn(4) > 0 || r.Intn(10) == 0 {
+			return c09Op{cls: "unsanction", term: fmt.Sprintf("OUnsanction %s", c09N(a)), dsc: fmt.Sprintf("unsanction %d", a),
+				run: func(c sdk.Context) error { return e.app.SanctionKeeper.UnsanctionAddresses(c, e.addrs[a]) }}
+		}
+		return c09Op{cls: "sanction", term: fmt.Sprintf("OSanction %s", c09N(a)), dsc: fmt.Sprintf("sanction %d", a),
+			run: func(c sdk.Context) error { return e.app.SanctionKeeper.SanctionAddresses(c, e.addrs[a]) }}
+	case 11: // quarantine administration
+		a := []int{1, 2, 3, 1, 2, 3, c09Grantee, c09Stranger, c09Mk1}[r.Intn(9)]
+		switch v := r.Intn(10); {
+		case v < 5:
+			msg := &quarantine.MsgOptIn{ToAddress: e.addrs[a].String()}
+			return c09Op{cls: "opt-in", term: fmt.Sprintf("OOptIn %s", c09N(a)), dsc: fmt.Sprintf("quarantine opt-in %d", a),
+				run: func(c sdk.Context) error { return e.runMsg(c, msg) }}
+		case v < 6:
+			msg := &quarantine.MsgOptOut{ToAddress: e.addrs[a].String()}
+			return c09Op{cls: "opt-out", term: fmt.Sprintf("OOptOut %s", c09N(a)), dsc: fmt.Sprintf("quarantine opt-out %d", a),
+				run: func(c sdk.Context) error { return e.runMsg(c, msg) }}
+		default:
+			from := h.anyAcct()
+			if r.Intn(3) == 0 {
+				from = c09Module // newly minted tokens come from the metadata module account
+			}
+			on := r.Intn(3) > 0
+			resp := quarantine.AUTO_RESPONSE_UNSPECIFIED
+			if on {
+				resp = quarantine.AUTO_RESPONSE_ACCEPT
+			} else if r.Intn(2) == 0 {
+				resp = quarantine.AUTO_RESPONSE_DECLINE
+			}
+			msg := &quarantine.MsgUpdateAutoResponses{ToAddress: e.addrs[a].String(),
+				Updates: []*quarantine.AutoResponseUpdate{{FromAddress: e.addrs[from].String(), Response: resp}}}
+			return c09Op{cls: "auto-response", term: fmt.Sprintf("OAutoAccept %s %s %s", c09N(a), c09N(from), coqBool(on)),
+				dsc: fmt.Sprintf("quarantine auto-response of %d for %d: %v", a, from, resp),
+				run: func(c sdk.Context) error { return e.runMsg(c, msg) }}
+		}
+	default: // accept / decline quarantined funds
+		to := 1 + r.Intn(3)
+		froms := []int{h.anyAcct()}
+		if qs := h.allQRecs(); len(qs) > 0 && r.Intn(6) > 0 {
+			q := qs[r.Intn(len(qs))]
+			to, froms = q.to, []int{q.from}
+			if r.Intn(4) == 0 {
+				froms = append(froms, h.anyAcct())
+			}
+			if r.Intn(10) == 0 {
+				to = 1 + r.Intn(3) // somebody else tries to accept
+			}
+		}
+		if r.Intn(30) == 0 {
+			froms = nil
+		}
+		if r.Intn(6) == 0 {
+			msg := &quarantine.MsgDecline{ToAddress: e.addrs[to].String(), FromAddresses: h.strs(froms)}
+			return c09Op{cls: "decline", term: fmt.Sprintf("ODecline %s %s", c09N(to), c09Ns(froms)), dsc: fmt.Sprintf("quarantine decline by %d from %v", to, froms),
+				run: func(c sdk.Context) error { return e.runMsg(c, msg) }}
+		}
+		perm := r.Intn(4) == 0
+		msg := &quarantine.MsgAccept{ToAddress: e.addrs[to].String(), FromAddresses: h.strs(froms), Permanent: perm}
+		return c09Op{cls: "accept", term: fmt.Sprintf("OAccept %s %s %s", c09N(to), c09Ns(froms), coqBool(perm)),
+			dsc: fmt.Sprintf("quarantine accept by %d from %v permanent %v", to, froms, perm),
+			run: func(c sdk.Context) error { return e.runMsg(c, msg) }}
 	}
+}
+
+func (e *c09Env) startTerm(h *c09Hist) string {
+	var sp, mk []string
+	for i := 1; i < c09NoSpec; i++ {
+		sp = append(sp, fmt.Sprintf("(%s, %s)", c09N(i), c09Ns(c09SpecRoles[i])))
+	}
+	for _, mi := range c09Markers {
+		mk = append(mk, fmt.Sprintf("(%s, %s)", c09N(mi), h.mks[mi].term()))
+	}
+	return fmt.Sprintf("(init %s %s [%s] [%s; %s])", coqList(sp), coqList(mk), c09N(c09Wasm), c09N(c09Module), c09N(c09Blocked))
+}
+
+func (h *c09Hist) holderKind(a int, bcls string) string {
+	if a < 0 {
+		return "mint"
+	}
+	if m, ok := h.mks[a]; ok {
+		s := "from-marker"
+		if m.restricted {
+			s = "from-restricted-marker"
+		}
+		return s + "-" + c09MarkerStatus[m.status]
+	}
+	if a == c09QHold {
+		return "from-quarantine"
+	}
+	return "from-" + bcls
 }
 
 // c09History runs one history.  legacy > 0: scope 1 is first created as PRE-MIGRATION state (the
@@ -1042,21 +1642,35 @@ func (h *c09Hist) genOp(nIds int) c09Op {
 // bank by Migrator.Migrate3To4, which leaves the old value_owner_address in the stored record; the
 // history then starts with a scripted value-owner update by the holder followed by an
 // AddScopeDataAccess by the owner (an endpoint that rewrites the STORED scope through SetScope).
-func c09History(e *c09Env, r *rand.Rand, w *CaseWriter, hi int, legacy int) {
+// bulk = 20: twenty scopes with DIFFERENT value owners, then bulk updates over 1-20 of them;
+// bulk = 110: more scopes (105) than the ValueOwnership page size held by one account, then migrations.
+func c09History(e *c09Env, r *rand.Rand, w *CaseWriter, hi int, legacy int, bulk int) {
 	ctx, _ := e.base.CacheContext()
-	h := &c09Hist{e: e, r: r, ctx: ctx, scopes: map[int]*c09Scope{}, grants: map[string]bool{}, mks: map[int]c09Marker{}}
+	h := &c09Hist{e: e, r: r, ctx: ctx, scopes: map[int]*c09Scope{}, mks: map[int]c09Marker{},
+		profile: c09ProfileOrder[hi%len(c09ProfileOrder)]}
 	nIds := 2 + r.Intn(3)
+	if bulk < 0 {
+		nIds = 1
+		h.profile = "script"
+	}
+	if bulk > 0 {
+		nIds = bulk
+		h.profile = "plain"
+		h.paged = bulk > 100
+	}
 	for i := 0; i < nIds; i++ {
 		h.ids = append(h.ids, mdtypes.ScopeMetadataAddress(uuid.MustParse(fmt.Sprintf("10000000-0000-4000-8000-%06d%06d", hi%1000000, i+1))))
 	}
-	h.mks[c09Mk1] = e.randMarker(r, false)
-	h.mks[c09Mk2] = e.randMarker(r, true)
-	e.setMarker(ctx, c09Mk1, h.mks[c09Mk1])
-	e.setMarker(ctx, c09Mk2, h.mks[c09Mk2])
-	start := fmt.Sprintf("(init [(1%%N, %s); (2%%N, %s)] [(%s, %s); (%s, %s)] [%s] [%s; %s])",
-		c09Ns(c09SpecRoles[1]), c09Ns(c09SpecRoles[2]),
-		c09N(c09Mk1), h.mks[c09Mk1].term(), c09N(c09Mk2), h.mks[c09Mk2].term(), c09N(c09Wasm), c09N(c09Module), c09N(c09Blocked))
-	var queue []c09Op
+	for _, mi := range c09Markers {
+		m := e.randMarker(r, mi)
+		if bulk > 0 { // the administrator can always withdraw and deposit; the status stays random
+			m.withdraw, m.deposit = []int{c09Admin}, []int{c09Admin}
+		}
+		h.mks[mi] = m
+		e.setMarker(ctx, mi, m)
+	}
+	start := e.startTerm(h)
+	var queue []func() c09Op
 	if legacy > 0 {
 		owner, vo, next := 1+legacy%3, 1+(legacy+1)%3, []int{c09Stranger, c09Grantee, 1 + (legacy+2)%3}[legacy%3]
 		sc := c09Scope{parties: []c09Party{{owner, c09Owner, false}}, spec: 1}
@@ -1068,29 +1682,137 @@ func c09History(e *c09Env, r *rand.Rand, w *CaseWriter, hi int, legacy int) {
 		}
 		h.scopes[0] = &sc
 		// the same state in the model: the scope written with that value owner
-		start = fmt.Sprintf("(run %s [OWrite %s 1%%N %s 1%%N [] false %s])", start, c09Ns([]int{owner}), c09PartiesTerm(sc.parties), c09OptN(vo))
-		queue = append(queue, h.opUpdate([]int{vo}, []int{0}, next), h.opAddData([]int{owner}, 0, []int{1}))
+		start = fmt.Sprintf("(run %s [%s])", start, c09WriteTerm([]int{owner}, 0, sc, vo))
+		queue = append(queue, func() c09Op { return h.opUpdate([]int{vo}, []int{0}, next) }, func() c09Op { return h.opAddData([]int{owner}, 0, []int{1}) })
 		w.Count("legacy histories")
+	}
+	nSteps := 10 + r.Intn(21)
+	if bulk < 0 {
+		// markers cannot interfere: the scripts use plain accounts only
+		queue = h.c09Script(-bulk)
+		nSteps = len(queue)
+		w.Count("scripted observation histories")
+	}
+	if bulk > 0 {
+		// the scopes are written for real (and in the model) before the observed history starts
+		var writes []string
+		owners := []int{1, 2, 3, c09Grantee, c09Admin, c09Mk1, c09Mk2, c09Mk3}
+		for d := 0; d < nIds; d++ {
+			sc := c09Scope{parties: []c09Party{{1 + d%3, c09Owner, false}}, spec: 1}
+			vo := 1
+			if bulk <= 100 {
+				vo = owners[(d+hi)%len(owners)]
+			} else if d%20 == 19 {
+				vo = 2
+			}
+			sg := []int{1 + d%3}
+			if m, ok := h.mks[vo]; ok && m.restricted {
+				dep := -1
+				for _, a := range m.deposit {
+					if a != c09Wasm {
+						dep = a
+						break
+					}
+				}
+				if dep < 0 {
+					vo = c09Mk1
+				} else if dep != sg[0] {
+					sg = append(sg, dep)
+				}
+			}
+			op := h.opWrite("bulk-setup", sg, d, sc, vo)
+			if err := op.run(ctx); err != nil {
+				e.t.Fatalf("bulk set-up write %d: %v", d, err)
+			}
+			writes = append(writes, op.term)
+		}
+		start = fmt.Sprintf("(run %s %s)", start, coqList(writes))
+		all := make([]int, nIds)
+		for i := range all {
+			all[i] = i
+		}
+		// every current holder consents: itself, or for a marker an account with withdraw access (never
+		// the contract, whose signature would hide all the others)
+		consent := func(ds []int) []int {
+			var sg []int
+			add := func(a int) {
+				for _, x := range sg {
+					if x == a {
+						return
+					}
+				}
+				sg = append(sg, a)
+			}
+			for _, d := range ds {
+				a := h.holder(d)
+				if m, ok := h.mks[a]; ok {
+					w := c09Admin
+					for _, x := range m.withdraw {
+						if x != c09Wasm {
+							w = x
+							break
+						}
+					}
+					add(w)
+				} else if a >= 0 {
+					add(a)
+				}
+			}
+			return sg
+		}
+		if bulk <= 100 {
+			k := 1 + r.Intn(nIds)
+			part := r.Perm(nIds)[:k]
+			queue = append(queue,
+				func() c09Op { sg := consent(all); return h.opUpdate(sg[:len(sg)-1], all, c09Stranger) }, // one consent missing: nothing moves
+				func() c09Op { return h.opUpdate(consent(part), part, c09Stranger) },
+				func() c09Op { return h.opUpdate(consent(all), append(append([]int{}, all...), all[0]), c09Wasm) }, // a duplicate id
+				func() c09Op { return h.opUpdate(consent(all), all, c09Wasm) })
+			w.Count("bulk-update histories")
+		} else {
+			queue = append(queue,
+				func() c09Op { return h.opMigrate([]int{c09Stranger}, 1, 3) },
+				func() c09Op { return h.opMigrate([]int{1}, 1, 3) },
+				func() c09Op { return h.opMigrate([]int{3, 2}, 3, 2) })
+			w.Count("bulk-migrate histories")
+		}
+		nSteps = len(queue) + 3
 	}
 	obs0 := h.observe(true)
 
 	var steps, descs []string
-	n := 10 + r.Intn(21)
 	accepted, changed := 0, 0
-	for s := 0; s < n; s++ {
+	scripted := false
+	for s := 0; s < nSteps; s++ {
 		var op c09Op
+		if len(queue) == 0 && !scripted && bulk == 0 && s >= 3 && (h.profile == "authz" || h.profile == "mixed") && r.Intn(5) == 0 {
+			if q := h.expiryScript(nIds); q != nil {
+				queue, scripted = q, true
+				w.Count("expiry scripts")
+			}
+		}
 		if len(queue) > 0 {
-			op, queue = queue[0], queue[1:]
-			op.cls = "legacy " + op.cls
+			op, queue = queue[0](), queue[1:]
+			if bulk > 0 {
+				op.cls = "bulk " + op.cls
+			} else if bulk < 0 {
+				op.cls = "script " + op.cls
+			} else if scripted {
+				op.cls = "expiry " + op.cls
+			} else {
+				op.cls = "legacy " + op.cls
+			}
 		} else {
 			op = h.genOp(nIds)
 		}
 		cls := op.cls
 		before := make([]int, nIds)
 		bcls := make([]string, nIds)
+		bkind := make([]string, nIds)
 		for d := range h.ids {
 			before[d] = h.holder(d)
 			bcls[d] = h.voClass(d, before[d])
+			bkind[d] = h.holderKind(before[d], bcls[d])
 		}
 		cctx, write := h.ctx.CacheContext()
 		err := op.run(cctx)
@@ -1104,30 +1826,38 @@ func c09History(e *c09Env, r *rand.Rand, w *CaseWriter, hi int, legacy int) {
 				w.Count("panics")
 			}
 		}
+		moved := 0
 		for d := range h.ids {
 			if a := h.holder(d); a != before[d] {
 				changed++
+				moved++
 				w.Count("holder changes")
-				kindOf := "user"
-				if before[d] < 0 {
-					kindOf = "mint"
-				} else if _, ok := h.mks[before[d]]; ok {
-					kindOf = "from-marker"
-				} else {
-					kindOf = "from-" + bcls[d]
-				}
+				kindOf := bkind[d]
 				if a < 0 {
 					kindOf += "/burn"
 				} else if m, ok := h.mks[a]; ok {
 					if m.restricted {
-						kindOf += "/to-restricted-marker"
+						kindOf += "/to-restricted-marker-" + c09MarkerStatus[m.status]
 					} else {
-						kindOf += "/to-marker"
+						kindOf += "/to-marker-" + c09MarkerStatus[m.status]
 					}
+				} else if a == c09QHold {
+					kindOf += "/to-quarantine"
 				}
 				base := strings.SplitN(cls, " ", 2)[0]
+				if bulk > 0 {
+					base = "bulk"
+				} else if bulk < 0 {
+					base = "script"
+				}
 				w.Count("holder change " + base + " " + kindOf)
 				w.Nontrivial(base + " " + kindOf)
+			}
+		}
+		if moved > 1 {
+			w.Count("steps moving several tokens")
+			if moved > 100 {
+				w.Count("steps moving more than 100 tokens")
 			}
 		}
 		steps = append(steps, fmt.Sprintf("(%s, %s)", op.term, h.observe(err == nil)))
@@ -1139,8 +1869,9 @@ func c09History(e *c09Env, r *rand.Rand, w *CaseWriter, hi int, legacy int) {
 	}
 	accN := append(append([]int{}, e.order...), c09Other)
 	term := fmt.Sprintf("CHist %s %s %s %s %s", c09Ns(idN), c09Ns(accN), start, obs0, coqList(steps))
-	w.Add(term, map[string]any{"history": hi, "scopes": nIds, "legacy": legacy, "steps": descs})
+	w.Add(term, map[string]any{"history": hi, "scopes": nIds, "legacy": legacy, "bulk": bulk, "profile": h.profile, "steps": descs})
 	w.Count("histories")
+	w.Count("histories profile " + h.profile)
 	w.CountN("history_steps", int64(len(steps)))
 	w.CountN("history_steps_accepted", int64(accepted))
 	if changed > 0 {
@@ -1158,7 +1889,14 @@ func TestC09(t *testing.T) {
 		if hi%20 == 0 {
 			legacy = 1 + hi/20 // scripted pre-migration start state
 		}
-		c09History(e, r, w, hi, legacy)
+		c09History(e, r, w, hi, legacy, 0)
+	}
+	for i := 0; i < scale(4, 24); i++ {
+		c09History(e, r, w, n+2*i, 0, 20)
+		c09History(e, r, w, n+2*i+1, 0, 110)
+	}
+	for k := 1; k <= 5; k++ {
+		c09History(e, r, w, n+1000+k, 0, -k) // the observation Examples of Properties/C09.v
 	}
 	w.Flush(t)
 }
